@@ -189,6 +189,15 @@ func subjects(thorough bool) []subject {
 	})
 	add("plain/gogo/FieldOptions-empty", clsGogo, func() any { return &gogodesc.FieldOptions{} })
 	add("selfmarshal/gogo/Timestamp", clsGogo, func() any { return &gogotypes.Timestamp{Seconds: 5, Nanos: 6} })
+	// a gogo Any holding a message of a type the gogo registry knows: text rendering has an "expanded" form that the
+	// runtime's default does not use
+	add("selfmarshal/gogo/Any{Duration}", clsGogo, func() any {
+		a, err := gogotypes.MarshalAny(&gogotypes.Duration{Seconds: 90})
+		if err != nil {
+			panic(err)
+		}
+		return a
+	})
 	add("selfmarshal/gogo/StringValue", clsGogo, func() any { return &gogotypes.StringValue{Value: strings.Repeat("y", 127)} })
 	// plain Google V1 messages
 	add("plain/googlev1/LegacyPlain", clsV1, func() any {
